@@ -208,3 +208,70 @@ HARNESS(h_rt_hex_u64){
   P(ec == 0 && out == v && consumed == n, "hex_to_integer(integer_to_hex(v)) == v");
   WIT(ec == 0 && n == 16);
 }
+
+/* ---------------- C01 K1.3 / C04: a double's digits and exponent are assembled into JSON number text that keeps the floating kind and denotes digits * 10^k ---------------- */
+#ifndef ND
+#define ND 3
+#endif
+INPUT_ARR(u8, IN_dig, 20) INPUT(s32, IN_k10) INPUT(u32, IN_mode)
+/* RFC 8259 number grammar over out[0..w): returns 1 if well formed; collects mantissa digits (int part then fraction) and the decimal exponent */
+static int json_number(const u8* o, unsigned w, u8* m, unsigned* nm, s32* e10, int* has_frac_or_exp) {
+  unsigned p = 0; *nm = 0; *e10 = 0; *has_frac_or_exp = 0;
+  if (p < w && o[p] == '-') p++;
+  if (p >= w) return 0;
+  if (o[p] == '0') { m[(*nm)++] = '0'; p++; }
+  else if (o[p] >= '1' && o[p] <= '9') { for (int i = 0; i < 40; i++) { if (p < w && o[p] >= '0' && o[p] <= '9') { if (*nm < 40) m[(*nm)++] = o[p]; p++; } } }
+  else return 0;
+  if (p < w && o[p] == '.') { p++; *has_frac_or_exp = 1; unsigned f = 0; for (int i = 0; i < 40; i++) { if (p < w && o[p] >= '0' && o[p] <= '9') { if (*nm < 40) m[(*nm)++] = o[p]; p++; f++; } } if (f == 0) return 0; *e10 -= (s32)f; }
+  if (p < w && (o[p] == 'e' || o[p] == 'E')) { p++; *has_frac_or_exp = 1; int neg = 0; if (p < w && (o[p] == '+' || o[p] == '-')) { neg = o[p] == '-'; p++; } s32 x = 0; unsigned d = 0; for (int i = 0; i < 6; i++) { if (p < w && o[p] >= '0' && o[p] <= '9') { x = x * 10 + (o[p] - '0'); p++; d++; } } if (d == 0) return 0; *e10 += neg ? -x : x; }
+  return p == w;
+}
+/* normalise (digits, exponent): strip leading and trailing zeros */
+static void norm(u8* m, unsigned* n, s32* e) { for (int i = 0; i < 40; i++) if (*n > 1 && m[*n - 1] == '0') { (*n)--; (*e)++; }
+  unsigned lead = 0; for (int i = 0; i < 40; i++) if (lead + 1 < *n && m[lead] == '0') lead++;
+  if (lead) { for (unsigned i = 0; i < 40; i++) if (i + lead < *n) m[i] = m[i + lead]; *n -= lead; }
+  if (*n == 1 && m[0] == '0') *e = 0; }
+HARNESS(h_prettify) {
+  HAVOC_ARR(IN_dig, 20); HAVOC(IN_k10); HAVOC(IN_mode); ASSUME(IN_mode <= 1);
+  u8* d = malloc(ND); ASSUME(d != 0); for (int i = 0; i < ND; i++) { ASSUME(IN_dig[i] >= '0' && IN_dig[i] <= '9'); d[i] = IN_dig[i]; } ASSUME(d[0] != '0');   /* grisu3 / the %.17e path hand over a non-empty digit string without a leading zero */
+  ASSUME(IN_k10 >= -400 && IN_k10 <= 400);
+#ifdef PMODE
+  IN_mode = PMODE;
+#endif
+  if (IN_mode == 1) ASSUME(IN_k10 >= -30 && IN_k10 <= 30);   /* fixed notation writes |k| zeros: bounded so that the text fits the 64-byte sink (placed BEFORE the call) */
+  u8* out = malloc(64); ASSUME(out != 0); memset(out, 0, 64);
+  /* the two in-repo callers: dtoa_general (-4, max_digits10) and dtoa_fixed (INT_MIN, INT_MAX) */
+  u64 w = IN_mode ? k_prettify(d, ND, IN_k10, (s32)0x80000000, 0x7fffffff, out, 64) : k_prettify(d, ND, IN_k10, -4, 17, out, 64);
+  P(w >= 3 && w <= 63, "text fits"); ASSUME(w >= 3 && w <= 63);
+  u8 m[40]; unsigned nm; s32 e10; int fk; int ok = json_number(out, (unsigned)w, m, &nm, &e10, &fk);
+  P(ok, "the text is an RFC 8259 number");
+  P(fk, "the text contains a fraction or an exponent, so it re-parses as a floating-point value (kind kept)");
+  u8 r[40]; unsigned nr = ND; s32 er = IN_k10; for (int i = 0; i < ND; i++) r[i] = d[i];
+  norm(m, &nm, &e10); norm(r, &nr, &er);
+  int same = (nm == nr && e10 == er); for (unsigned i = 0; i < 40; i++) if (i < nm && i < nr && m[i] != r[i]) same = 0;
+  P(same, "the text denotes exactly digits * 10^k");
+  WIT(IN_k10 < -10 && ok);
+}
+#ifndef NB2
+#define NB2 6
+#endif
+INPUT_ARR(u8, IN_pb, 12) INPUT(u32, IN_dp)
+/* printf("%.*g/e/f") output grammar with decimal point dp: [-] digits [dp digits] [e [+-] digits] */
+static int printf_float(const u8* s, unsigned n, u8 dp) { unsigned p = 0; if (p < n && s[p] == '-') p++; unsigned d = 0; for (int i = 0; i < 12; i++) if (p < n && s[p] >= '0' && s[p] <= '9') { p++; d++; } if (!d) return 0;
+  if (p < n && s[p] == dp) { p++; d = 0; for (int i = 0; i < 12; i++) if (p < n && s[p] >= '0' && s[p] <= '9') { p++; d++; } if (!d) return 0; }
+  if (p < n && (s[p] == 'e' || s[p] == 'E')) { p++; if (p < n && (s[p] == '+' || s[p] == '-')) p++; d = 0; for (int i = 0; i < 12; i++) if (p < n && s[p] >= '0' && s[p] <= '9') { p++; d++; } if (d < 2) return 0; }
+  return p == n; }
+HARNESS(h_dump_buffer) {
+  HAVOC_ARR(IN_pb, 12); HAVOC(IN_dp); ASSUME(IN_dp == '.' || IN_dp == ',' );
+  u8* b = malloc(NB2); ASSUME(b != 0); for (int i = 0; i < NB2; i++) b[i] = IN_pb[i];
+  ASSUME(printf_float(b, NB2, (u8)IN_dp));
+  ASSUME(!(b[0] == '0' && NB2 > 1 && b[1] >= '0' && b[1] <= '9') && !(b[0] == '-' && b[1] == '0' && NB2 > 2 && b[2] >= '0' && b[2] <= '9'));   /* printf never writes a redundant leading zero */
+  u8* out = malloc(32); ASSUME(out != 0); memset(out, 0, 32);
+  u64 w = k_dump_buffer(b, NB2, (u8)IN_dp, out, 32);
+  P(w >= NB2 && w <= NB2 + 2, "at most '.0' is added"); ASSUME(w <= NB2 + 2);
+  u8 m[40]; unsigned nm; s32 e10; int fk; int ok = json_number(out, (unsigned)w, m, &nm, &e10, &fk);
+  P(ok && fk, "the printf text becomes an RFC 8259 number with a fraction or exponent (locale decimal point replaced by '.', '.0' appended when needed)");
+  unsigned q = 0; int same = 1; for (int i = 0; i < NB2; i++) { u8 c = b[i]; if (c == IN_dp) c = '.'; if (c == 'E') c = 'e'; if (q < w && out[q] == c) q++; else same = 0; }
+  P(same && (q == w || (q + 2 == w && out[q] == '.' && out[q + 1] == '0')), "every character of the printf text is kept in order");
+  WIT(ok);
+}
